@@ -730,6 +730,8 @@ func salts(r *rand.Rand, i int, full bool) [][]byte {
 	return [][]byte{all[i%len(all)], all[(i*7+3)%len(all)]}
 }
 
+var shapesPath string
+
 func runAll(w *vt.Writer, full bool) {
 	x := &run{w, vt.Rng(17)}
 	r := x.r
@@ -774,6 +776,11 @@ func runAll(w *vt.Writer, full bool) {
 
 	// 1b. deriver keysets the library generates itself from key templates
 	x.templates(full)
+
+	// 1c. every keyset shape enumerated by TLC (Plan_KeysetShapes)
+	if shapesPath != "" {
+		x.planned(shapesPath, ds)
+	}
 
 	// 2. multi-key deriver keysets of one primitive family: statuses, primary position, ids
 	count := 200
@@ -926,6 +933,82 @@ func runAll(w *vt.Writer, full bool) {
 	}
 }
 
+// shape is one TLC-enumerated keyset shape (spec/plan/Plan_KeysetShapes.tla).
+type shape struct {
+	Keys []struct {
+		Status  string `json:"status"`
+		Primary bool   `json:"primary"`
+		T       int    `json:"t"`
+	} `json:"keys"`
+}
+
+// planned instantiates EVERY keyset shape TLC enumerated (status x derived-key class x primary position) as a deriver
+// keyset of one primitive family (rotating; every seventh shape mixes families), derives, uses and re-derives it.
+func (x *run) planned(path string, ds []dparams) {
+	raw, err := os.ReadFile(path)
+	if err != nil {
+		vt.Fatal("read shapes: %v", err)
+	}
+	r := x.r
+	byFam := map[string][]dparams{}
+	for _, d := range ds {
+		if usable(d) {
+			byFam[family[d.Type]] = append(byFam[family[d.Type]], d)
+		}
+	}
+	fams := []string{"aead", "daead", "mac", "prf", "sig", "stream", "mixed"}
+	si := 0
+	for _, line := range bytes.Split(raw, []byte("\n")) {
+		if len(bytes.TrimSpace(line)) == 0 {
+			continue
+		}
+		var sh shape
+		if err := json.Unmarshal(line, &sh); err != nil {
+			vt.Fatal("bad shape: %v", err)
+		}
+		si++
+		fam := fams[si%len(fams)]
+		pool := byFam[fam]
+		if fam == "mixed" {
+			pool = ds
+		}
+		perm := r.Perm(len(someIDs))
+		var ks []dentry
+		for i, k := range sh.Keys {
+			h, s, pk := x.prfOf(si*5 + i)
+			id := someIDs[perm[i]]
+			if (si+i)%4 == 0 {
+				id = r.Uint32()
+			}
+			ks = append(ks, dentry{vt.ID4(id), k.Status, k.Primary, h, s, pk, pool[(si*3+k.T)%len(pool)]})
+		}
+		seen := map[string]bool{}
+		for _, e := range ks {
+			if seen[e.ID] {
+				vt.Fatal("id collision while instantiating a shape")
+			}
+			seen[e.ID] = true
+		}
+		salt := vt.Bytes(r, []int{0, 1, 16, 32, 100}[si%5])
+		hd, err := deriverHandle(ks)
+		if err != nil {
+			vt.Fatal("cannot build deriver keyset: %v", err)
+		}
+		dh, o := x.deriveWith("plan", hd, ks, salt, false)
+		if dh == nil {
+			continue
+		}
+		if fam != "mixed" {
+			x.use(ks, salt, dh, o)
+		}
+		if si%3 == 0 {
+			salt2 := append(append([]byte{}, salt...), 1)
+			_, o2 := x.deriveWith("plan", hd, ks, salt2, false)
+			x.distinct("salts", ks, salt, o, ks, salt2, o2)
+		}
+	}
+}
+
 func (x *run) perKey(e dentry, salt []byte) {
 	k, err := deriverKey(e)
 	if err != nil {
@@ -1048,6 +1131,7 @@ func replay(path string, w *vt.Writer) {
 func main() {
 	out := flag.String("out", "", "trace file")
 	rp := flag.String("replay", "", "replay file")
+	flag.StringVar(&shapesPath, "shapes", "", "keyset shapes enumerated by TLC (Plan_KeysetShapes)")
 	flag.Parse()
 	if *out == "" {
 		vt.Fatal("usage: c17 -out trace.ndjson [-replay file]")
